@@ -65,6 +65,11 @@ add("lang", "file", "int vf%d(int, int, ...); int vu%d(void) { return vf%d(1); }
     "struct e%d { int a; struct { int b; int a; }; };", "struct e%d { struct { int y; int x; }; int x; };", "union e%d { int a; float a; };",
     "int q%d(int a, int a);", "int q%d(int a, int (*g)(int), char a) { return 0; }", "double q%d = 0x1.0;", "float q%d = 0x.8f;")
 add("lang", "unit", "#line 1 2\nint x;\n", "# 3 4\nint x;\n")
+# qualifiers that reach an array only through the lvalue (member of a const struct, const-qualified typedef'd array) survive the decay
+add("lang", "block", "{ typedef int A%d[4]; const A%d ta%d = { 0 }; ta%d[1] = 2; }", "{ const struct hs *cp%d = gsp; cp%d->arr[1] = 2; }", "{ const struct hs cs%d = { 0 }; cs%d.arr[0] = 1; }",
+    "{ const struct hs *cp%d = gsp; *cp%d->arr = 2; }", "{ const struct hs *cp%d = gsp; gp = cp%d->arr; }", "{ typedef int A%d[4]; const A%d ta%d = { 0 }; gp = ta%d; }",
+    "{ typedef int A%d[2][2]; const A%d tm%d = { { 0 } }; tm%d[1][1] = 2; }", "{ const struct hs *cp%d = gsp; (cp%d->arr + 1)[0]++; }")
+add("lang", "file", "int *bad%d(const struct hs *p) { return p->arr; }", "typedef int TA%d[3]; const TA%d cta%d; void st%d(void) { cta%d[0] = 1; }")
 
 # ---- unsupported features ------------------------------------------------------------------------------------
 add("unsup", "file", "_Atomic int q%d;", "_Atomic(int) q%d;", "int _Atomic q%d;", "_Complex double q%d;", "double _Complex q%d;", "long double q%d = 1.0L;", "struct __attribute__((aligned(8))) ua%d { char c; };",
